@@ -61,14 +61,19 @@ def small_strings(alphabet: bytes, maxlen: int):
     return out
 
 
-def sweep(bases, values=range(256)):
-    """every byte value inserted at / substituted for every position"""
+INTERESTING = sorted(set(b'"\\{}+~ \r\n\t\x00()%*][09azAZ&-,/:.=\x7f\x80\xe9\xff\x1f!|^_`\'#$'))
+
+
+def sweep(bases, values=None, substitute=True):
+    """every byte value (all 256, or the INTERESTING ones) inserted at /
+    substituted for every position"""
+    values = range(256) if values is None else values
     out = []
     for base in bases:
         for k in range(len(base) + 1):
             for c in values:
                 out.append(base[:k] + bytes([c]) + base[k:])
-                if k < len(base):
+                if substitute and k < len(base):
                     out.append(base[:k] + bytes([c]) + base[k + 1:])
     return out
 
@@ -203,6 +208,8 @@ def section(ctx) -> None:
     from pymap.parsing.specials import AString, Tag
     rng = ctx.rng
     quick = ctx.quick
+    vals_ = INTERESTING if quick else None
+    SH = dict(shard=600)
 
     # --- character classes: all 256 bytes
     cases = []
@@ -217,7 +224,7 @@ def section(ctx) -> None:
 
     # --- Atom / Nil / Number
     stream = small_strings(b'a1 N]', 4 if quick else 5) \
-        + sweep([b'ab1 x', b' NIL)', b'12 3', b'nIl', b'007']) \
+        + sweep([b'ab1 x', b' NIL)', b'12 3', b'nIl', b'007'], vals_, not quick) \
         + [mutate(rng, rng.choice([b' atom rest', b'NIL ', b'123 ', b'  ab]c']), b'aN1 ]"{\\')
            for _ in range(ctx.scale(300, 5000))]
     stream = list(dict.fromkeys(stream))
@@ -235,12 +242,12 @@ def section(ctx) -> None:
     for nm, typ, cs, chk in (('atom', 'bytes * option (bytes * bytes)', ca, 'chk_atom'),
                              ('nil', 'bytes * option bytes', cn, 'chk_nil'),
                              ('number', 'bytes * option (N * bytes)', cm, 'chk_number')):
-        for i in ctx.run_cases(nm, HEADER, typ, cs, chk)[:5]:
+        for i in ctx.run_cases(nm, HEADER, typ, cs, chk, **SH)[:5]:
             ctx.disagreement(nm, {'input': stream[i].hex()})
 
     # --- QuotedString
     qbases = [b'"abc" x', b'  "a\\"b\\\\c"rest', b'""', b'"a b"\r\n', b'"\xe9\x00"']
-    stream = small_strings(b'"\\a \r\n', 4 if quick else 6) + sweep(qbases) \
+    stream = small_strings(b'"\\a \r\n', 4 if quick else 6) + sweep(qbases, vals_, not quick) \
         + [mutate(rng, rng.choice(qbases), b'"\\a \r\n\x00') for _ in range(ctx.scale(400, 8000))] \
         + [lead + b'"' + gen_value(rng).replace(b'\\', b'\\\\').replace(b'"', b'\\"') + b'"' + tail
            for _ in range(ctx.scale(300, 6000))
@@ -259,7 +266,7 @@ def section(ctx) -> None:
             cq.append(T.pair(T.bytes_(buf), 'None'))
     ctx.sample({'quoted_input': stream[-1].decode('latin-1')})
     bad = ctx.run_cases('quoted_parse', HEADER, 'bytes * option (bytes * bytes * bytes)', cq,
-                        'chk_quoted')
+                        'chk_quoted', **SH)
     for i in bad[:5]:
         ctx.disagreement('quoted_parse', {'input': stream[i].hex()})
 
@@ -271,7 +278,7 @@ def section(ctx) -> None:
     paramsets = [(False, None, True), (False, None, False), (True, None, True),
                  (True, 2, True), (True, 5000, True), (False, 2, True)]
     stream = []
-    for buf in sbases + sweep([b'{3}\r\n', b'~{12+}\n', b' {2+}\r\nab c']):
+    for buf in sbases + sweep([b'{3}\r\n', b'~{12+}\n', b' {2+}\r\nab c'], vals_, not quick):
         for conts in (contsets if buf in sbases else contsets[:2]):
             for ps in (paramsets if buf in sbases else paramsets[:1]):
                 stream.append((buf, conts, ps))
@@ -318,7 +325,7 @@ def section(ctx) -> None:
     for nm, typ, cs, chk in (('literal_parse', typ_l, cl, 'chk_literal'),
                              ('string_parse', typ_s, cs_, 'chk_string'),
                              ('astring_parse', typ_s, cas, 'chk_astring')):
-        for i in ctx.run_cases(nm, HEADER, typ, cs, chk)[:5]:
+        for i in ctx.run_cases(nm, HEADER, typ, cs, chk, **SH)[:5]:
             ctx.disagreement(nm, {'input': keep[i][0].hex(), 'conts': [c.hex() for c in keep[i][1]],
                                   'params': keep[i][2]})
 
@@ -335,10 +342,10 @@ def section(ctx) -> None:
             cpl.append(T.pair(T.boolean(binary), T.bytes_(v), T.bytes_(bytes(LiteralString(v, binary))),
                               T.boolean(isinstance(built, QuotedString)), T.bytes_(bytes(built))))
         ctx.count(('print', v))
-    for i in ctx.run_cases('string_print', HEADER, 'bytes * bytes * bytes', cp, 'chk_print_q')[:5]:
+    for i in ctx.run_cases('string_print', HEADER, 'bytes * bytes * bytes', cp, 'chk_print_q', **SH)[:5]:
         ctx.disagreement('string_print', {'value': vals[i].hex()})
     for i in ctx.run_cases('literal_print', HEADER, 'bool * bytes * bytes * bool * bytes', cpl,
-                           'chk_print_l')[:5]:
+                           'chk_print_l', **SH)[:5]:
         ctx.disagreement('literal_print', {'value': vals[i // 2].hex(), 'binary': bool(i % 2)})
 
     # --- spelling monitor on the parser: all applicable spellings agree
